@@ -138,8 +138,10 @@ var rangeKinds = []rangeKind{
 }
 
 var (
-	rToks     = []string{":=", "="}
-	rPlaces   = []string{"A", "B", "C", "D"} // yielding body | non-yielding loop | loop inside a closure | nested in another yielding range
+	rToks = []string{":=", "="}
+	// yielding body | non-yielding loop | loop inside a closure | nested in another yielding range |
+	// labelled loop inside a closure | loop inside a closure with a goto jumping over it
+	rPlaces   = []string{"A", "B", "C", "D", "E", "F"}
 	rOperands = []string{"bare", "wrapped"}
 	rCtls     = []string{"none", "brk", "cont"}
 )
@@ -212,6 +214,16 @@ func (p rangeProg) text(id string) string {
 	case "C":
 		w(1, "func() {")
 		ind = 2
+	case "E":
+		w(1, "func() {")
+		w(1, "outer:")
+		ind = 2
+	case "F":
+		w(1, "func() {")
+		w(2, "if n > 99 {")
+		w(3, "goto end")
+		w(2, "}")
+		ind = 2
 	case "D":
 		w(1, "for _, o := range []int{10, 20} {")
 		w(2, "c.X(8, o)")
@@ -219,6 +231,11 @@ func (p rangeProg) text(id string) string {
 	}
 	w(ind, "for %s range %s {", hdr, operand)
 	w(ind+1, "n++")
+	if p.place == "E" {
+		w(ind+1, "if n > 99 {")
+		w(ind+2, "continue outer")
+		w(ind+1, "}")
+	}
 	if p.value == "max" {
 		// the whole value range of the type: only the count and the last key are observed (after the loop)
 		if hasK {
@@ -274,7 +291,11 @@ func (p rangeProg) text(id string) string {
 	}
 	w(ind, "}")
 	switch p.place {
-	case "C":
+	case "C", "E":
+		w(1, "}()")
+	case "F":
+		w(1, "end:")
+		w(2, "c.E(7)")
 		w(1, "}()")
 	case "D":
 		w(1, "}")
